@@ -8,7 +8,7 @@
    Fixed = TRUE is the code as it is now (after the fix of the start-failure path); Fixed = FALSE transcribes the
    path as it was (re-locking a held mutex) and is kept as a regression config that must deadlock.
    Checked: deadlock freedom while a client call is pending, NoCallbackAfterStop, the mutex invariant.        *)
-EXTENDS Integers, Sequences, TLC
+EXTENDS Integers, Sequences, TLC, McatEvents
 CONSTANTS Fixed, MaxCalls, MaxLines
 
 (* --algorithm MidicatIn
@@ -31,8 +31,11 @@ variables
   lastErr = FALSE,
   cbActive = 0,        \* listener id currently being invoked
   badCallback = FALSE, \* a callback started for a listener whose stop had returned
+  mon = M0,            \* state of the abstract hook-event monitor McatEvents (the events the verif hook reports, in lock order)
+  monOk = TRUE,        \* every event the model emitted so far was enabled in the monitor
   isopen = FALSE, startOK = TRUE, pendingSend = [i \in 1..2 |-> 0];
 
+macro Emit(e) begin monOk := monOk /\ MEnabled(mon, e); mon := MStep(mon, e); end macro;
 macro RLock()   begin await muW = 0 /\ muWait = 0; muR := muR + 1; end macro;
 macro RUnlock() begin muR := muR - 1; end macro;
 
@@ -59,7 +62,7 @@ begin
        end if;
  f5c:  hasProc := FALSE; muW := 0; lastErr := TRUE; return;
      end if;
- f6: alive[gen] := TRUE; spawned[gen] := TRUE; muW := 0; lastErr := FALSE; return;
+ f6: alive[gen] := TRUE; spawned[gen] := TRUE; Emit("started"); muW := 0; lastErr := FALSE; return;
 end procedure;
 
 procedure CloseP()
@@ -103,7 +106,7 @@ begin
             if listener = 0 then
      li4:     muWait := muWait + 1;
      li5:     await muW = 0 /\ muR = 0; muW := 1; muWait := muWait - 1;
-     li6:     listener := nextL; myL := nextL; nextL := nextL + 1; muW := 0;
+     li6:     listener := nextL; myL := nextL; nextL := nextL + 1; Emit("listener-set"); muW := 0;
             end if;
           end if;
    or     \* stop()
@@ -137,7 +140,9 @@ begin
  r4:   if listener # 0 then
          cbActive := listener;
          if listener \in stopped then badCallback := TRUE; end if;
- r5:     cbActive := 0;
+ r5:     cbActive := 0; Emit("line-delivered");
+       else
+         Emit("line-dropped");
        end if;
  r6:   RUnlock();
      end while;
@@ -154,14 +159,14 @@ begin
          alive[g] := FALSE;
  k2:     muWait := muWait + 1;
  k3:     await muW = 0 /\ muR = 0; muW := self; muWait := muWait - 1;
- k4:     hasProc := FALSE; muW := 0;
+ k4:     hasProc := FALSE; Emit("killed"); muW := 0;
  k5:     await killAck[g] = 0; killAck[g] := 1;
          goto kdone;
        or
          await stopReq[g] > 0; stopReq[g] := 0;
  k6:     muWait := muWait + 1;
  k7:     await muW = 0 /\ muR = 0; muW := self; muWait := muWait - 1;
- k8:     listener := 0; muW := 0;
+ k8:     listener := 0; Emit("listener-cleared"); muW := 0;
  k9:     await stopAck[g] = 0; stopAck[g] := 1;
        end either;
      end while;
@@ -178,17 +183,17 @@ begin
 end process;
 end algorithm; *)
 \* BEGIN TRANSLATION
-\* Process variable g of process reader at line 128 col 10 changed to g_
-\* Process variable g of process control at line 148 col 10 changed to g_c
+\* Process variable g of process reader at line 131 col 10 changed to g_
+\* Process variable g of process control at line 153 col 10 changed to g_c
 CONSTANT defaultInitValue
 VARIABLES pc, muW, muR, muWait, hasProc, listener, gen, stopReq, stopAck, 
           killReq, killAck, alive, spawned, pipe, emitted, nextL, stopped, 
-          calls, lastErr, cbActive, badCallback, isopen, startOK, pendingSend, 
-          stack, cg, lid, myL, g_, g_c, g
+          calls, lastErr, cbActive, badCallback, mon, monOk, isopen, startOK, 
+          pendingSend, stack, cg, lid, myL, g_, g_c, g
 
 vars == << pc, muW, muR, muWait, hasProc, listener, gen, stopReq, stopAck, 
            killReq, killAck, alive, spawned, pipe, emitted, nextL, stopped, 
-           calls, lastErr, cbActive, badCallback, isopen, startOK, 
+           calls, lastErr, cbActive, badCallback, mon, monOk, isopen, startOK, 
            pendingSend, stack, cg, lid, myL, g_, g_c, g >>
 
 ProcSet == {1} \cup ({10, 11}) \cup ({20, 21}) \cup ({30, 31}) \cup ({40, 41})
@@ -214,6 +219,8 @@ Init == (* Global variables *)
         /\ lastErr = FALSE
         /\ cbActive = 0
         /\ badCallback = FALSE
+        /\ mon = M0
+        /\ monOk = TRUE
         /\ isopen = FALSE
         /\ startOK = TRUE
         /\ pendingSend = [i \in 1..2 |-> 0]
@@ -244,8 +251,8 @@ io1(self) == /\ pc[self] = "io1"
              /\ UNCHANGED << muW, muR, muWait, hasProc, listener, gen, stopReq, 
                              stopAck, killReq, killAck, alive, spawned, pipe, 
                              emitted, nextL, stopped, calls, lastErr, cbActive, 
-                             badCallback, startOK, pendingSend, cg, lid, myL, 
-                             g_, g_c, g >>
+                             badCallback, mon, monOk, startOK, pendingSend, cg, 
+                             lid, myL, g_, g_c, g >>
 
 IsOpenP(self) == io1(self)
 
@@ -255,8 +262,8 @@ f1(self) == /\ pc[self] = "f1"
             /\ UNCHANGED << muW, muR, hasProc, listener, gen, stopReq, stopAck, 
                             killReq, killAck, alive, spawned, pipe, emitted, 
                             nextL, stopped, calls, lastErr, cbActive, 
-                            badCallback, isopen, startOK, pendingSend, stack, 
-                            cg, lid, myL, g_, g_c, g >>
+                            badCallback, mon, monOk, isopen, startOK, 
+                            pendingSend, stack, cg, lid, myL, g_, g_c, g >>
 
 f2(self) == /\ pc[self] = "f2"
             /\ muW = 0 /\ muR = 0
@@ -266,8 +273,8 @@ f2(self) == /\ pc[self] = "f2"
             /\ UNCHANGED << muR, hasProc, listener, gen, stopReq, stopAck, 
                             killReq, killAck, alive, spawned, pipe, emitted, 
                             nextL, stopped, calls, lastErr, cbActive, 
-                            badCallback, isopen, startOK, pendingSend, stack, 
-                            cg, lid, myL, g_, g_c, g >>
+                            badCallback, mon, monOk, isopen, startOK, 
+                            pendingSend, stack, cg, lid, myL, g_, g_c, g >>
 
 f3(self) == /\ pc[self] = "f3"
             /\ IF hasProc
@@ -280,8 +287,8 @@ f3(self) == /\ pc[self] = "f3"
             /\ UNCHANGED << muR, muWait, hasProc, listener, gen, stopReq, 
                             stopAck, killReq, killAck, alive, spawned, pipe, 
                             emitted, nextL, stopped, calls, cbActive, 
-                            badCallback, isopen, startOK, pendingSend, cg, lid, 
-                            myL, g_, g_c, g >>
+                            badCallback, mon, monOk, isopen, startOK, 
+                            pendingSend, cg, lid, myL, g_, g_c, g >>
 
 f4(self) == /\ pc[self] = "f4"
             /\ gen' = gen + 1
@@ -292,8 +299,8 @@ f4(self) == /\ pc[self] = "f4"
             /\ UNCHANGED << muW, muR, muWait, listener, stopReq, stopAck, 
                             killReq, killAck, alive, spawned, pipe, emitted, 
                             nextL, stopped, calls, lastErr, cbActive, 
-                            badCallback, isopen, pendingSend, stack, cg, lid, 
-                            myL, g_, g_c, g >>
+                            badCallback, mon, monOk, isopen, pendingSend, 
+                            stack, cg, lid, myL, g_, g_c, g >>
 
 f5(self) == /\ pc[self] = "f5"
             /\ IF ~startOK
@@ -304,8 +311,8 @@ f5(self) == /\ pc[self] = "f5"
             /\ UNCHANGED << muW, muR, muWait, hasProc, listener, gen, stopReq, 
                             stopAck, killReq, killAck, alive, spawned, pipe, 
                             emitted, nextL, stopped, calls, lastErr, cbActive, 
-                            badCallback, isopen, startOK, pendingSend, stack, 
-                            cg, lid, myL, g_, g_c, g >>
+                            badCallback, mon, monOk, isopen, startOK, 
+                            pendingSend, stack, cg, lid, myL, g_, g_c, g >>
 
 f5c(self) == /\ pc[self] = "f5c"
              /\ hasProc' = FALSE
@@ -315,9 +322,9 @@ f5c(self) == /\ pc[self] = "f5c"
              /\ stack' = [stack EXCEPT ![self] = Tail(stack[self])]
              /\ UNCHANGED << muR, muWait, listener, gen, stopReq, stopAck, 
                              killReq, killAck, alive, spawned, pipe, emitted, 
-                             nextL, stopped, calls, cbActive, badCallback, 
-                             isopen, startOK, pendingSend, cg, lid, myL, g_, 
-                             g_c, g >>
+                             nextL, stopped, calls, cbActive, badCallback, mon, 
+                             monOk, isopen, startOK, pendingSend, cg, lid, myL, 
+                             g_, g_c, g >>
 
 f5a(self) == /\ pc[self] = "f5a"
              /\ muWait' = muWait + 1
@@ -325,8 +332,8 @@ f5a(self) == /\ pc[self] = "f5a"
              /\ UNCHANGED << muW, muR, hasProc, listener, gen, stopReq, 
                              stopAck, killReq, killAck, alive, spawned, pipe, 
                              emitted, nextL, stopped, calls, lastErr, cbActive, 
-                             badCallback, isopen, startOK, pendingSend, stack, 
-                             cg, lid, myL, g_, g_c, g >>
+                             badCallback, mon, monOk, isopen, startOK, 
+                             pendingSend, stack, cg, lid, myL, g_, g_c, g >>
 
 f5b(self) == /\ pc[self] = "f5b"
              /\ muW = 0 /\ muR = 0
@@ -336,12 +343,14 @@ f5b(self) == /\ pc[self] = "f5b"
              /\ UNCHANGED << muR, hasProc, listener, gen, stopReq, stopAck, 
                              killReq, killAck, alive, spawned, pipe, emitted, 
                              nextL, stopped, calls, lastErr, cbActive, 
-                             badCallback, isopen, startOK, pendingSend, stack, 
-                             cg, lid, myL, g_, g_c, g >>
+                             badCallback, mon, monOk, isopen, startOK, 
+                             pendingSend, stack, cg, lid, myL, g_, g_c, g >>
 
 f6(self) == /\ pc[self] = "f6"
             /\ alive' = [alive EXCEPT ![gen] = TRUE]
             /\ spawned' = [spawned EXCEPT ![gen] = TRUE]
+            /\ monOk' = (monOk /\ MEnabled(mon, "started"))
+            /\ mon' = MStep(mon, "started")
             /\ muW' = 0
             /\ lastErr' = FALSE
             /\ pc' = [pc EXCEPT ![self] = Head(stack[self]).pc]
@@ -362,8 +371,8 @@ c1(self) == /\ pc[self] = "c1"
             /\ UNCHANGED << muW, muR, muWait, hasProc, listener, gen, stopReq, 
                             stopAck, killReq, killAck, alive, spawned, pipe, 
                             emitted, nextL, stopped, calls, lastErr, cbActive, 
-                            badCallback, isopen, startOK, pendingSend, cg, lid, 
-                            myL, g_, g_c, g >>
+                            badCallback, mon, monOk, isopen, startOK, 
+                            pendingSend, cg, lid, myL, g_, g_c, g >>
 
 c2(self) == /\ pc[self] = "c2"
             /\ IF ~isopen
@@ -375,8 +384,8 @@ c2(self) == /\ pc[self] = "c2"
             /\ UNCHANGED << muW, muR, muWait, hasProc, listener, gen, stopReq, 
                             stopAck, killReq, killAck, alive, spawned, pipe, 
                             emitted, nextL, stopped, calls, lastErr, cbActive, 
-                            badCallback, isopen, startOK, pendingSend, lid, 
-                            myL, g_, g_c, g >>
+                            badCallback, mon, monOk, isopen, startOK, 
+                            pendingSend, lid, myL, g_, g_c, g >>
 
 c3(self) == /\ pc[self] = "c3"
             /\ cg' = [cg EXCEPT ![self] = gen]
@@ -385,8 +394,8 @@ c3(self) == /\ pc[self] = "c3"
             /\ UNCHANGED << muW, muR, muWait, hasProc, listener, gen, stopReq, 
                             stopAck, killReq, killAck, alive, spawned, pipe, 
                             emitted, nextL, stopped, calls, lastErr, cbActive, 
-                            badCallback, isopen, startOK, stack, lid, myL, g_, 
-                            g_c, g >>
+                            badCallback, mon, monOk, isopen, startOK, stack, 
+                            lid, myL, g_, g_c, g >>
 
 c4(self) == /\ pc[self] = "c4"
             /\ stopAck[gen] > 0
@@ -395,8 +404,8 @@ c4(self) == /\ pc[self] = "c4"
             /\ UNCHANGED << muW, muR, muWait, hasProc, listener, gen, stopReq, 
                             killReq, killAck, alive, spawned, pipe, emitted, 
                             nextL, stopped, calls, lastErr, cbActive, 
-                            badCallback, isopen, startOK, pendingSend, stack, 
-                            cg, lid, myL, g_, g_c, g >>
+                            badCallback, mon, monOk, isopen, startOK, 
+                            pendingSend, stack, cg, lid, myL, g_, g_c, g >>
 
 c5(self) == /\ pc[self] = "c5"
             /\ killReq[gen] = 0
@@ -405,8 +414,8 @@ c5(self) == /\ pc[self] = "c5"
             /\ UNCHANGED << muW, muR, muWait, hasProc, listener, gen, stopReq, 
                             stopAck, killAck, alive, spawned, pipe, emitted, 
                             nextL, stopped, calls, lastErr, cbActive, 
-                            badCallback, isopen, startOK, pendingSend, stack, 
-                            cg, lid, myL, g_, g_c, g >>
+                            badCallback, mon, monOk, isopen, startOK, 
+                            pendingSend, stack, cg, lid, myL, g_, g_c, g >>
 
 c6(self) == /\ pc[self] = "c6"
             /\ killAck[gen] > 0
@@ -417,8 +426,8 @@ c6(self) == /\ pc[self] = "c6"
             /\ UNCHANGED << muW, muR, muWait, hasProc, listener, gen, stopReq, 
                             stopAck, killReq, alive, spawned, pipe, emitted, 
                             nextL, stopped, calls, lastErr, cbActive, 
-                            badCallback, isopen, startOK, pendingSend, lid, 
-                            myL, g_, g_c, g >>
+                            badCallback, mon, monOk, isopen, startOK, 
+                            pendingSend, lid, myL, g_, g_c, g >>
 
 CloseP(self) == c1(self) \/ c2(self) \/ c3(self) \/ c4(self) \/ c5(self)
                    \/ c6(self)
@@ -431,8 +440,8 @@ s1(self) == /\ pc[self] = "s1"
             /\ UNCHANGED << muW, muR, muWait, hasProc, listener, gen, stopReq, 
                             stopAck, killReq, killAck, alive, spawned, pipe, 
                             emitted, nextL, stopped, calls, lastErr, cbActive, 
-                            badCallback, isopen, startOK, pendingSend, cg, lid, 
-                            myL, g_, g_c, g >>
+                            badCallback, mon, monOk, isopen, startOK, 
+                            pendingSend, cg, lid, myL, g_, g_c, g >>
 
 s2(self) == /\ pc[self] = "s2"
             /\ IF ~isopen
@@ -445,8 +454,8 @@ s2(self) == /\ pc[self] = "s2"
             /\ UNCHANGED << muW, muR, muWait, hasProc, listener, gen, stopReq, 
                             stopAck, killReq, killAck, alive, spawned, pipe, 
                             emitted, nextL, calls, lastErr, cbActive, 
-                            badCallback, isopen, startOK, pendingSend, cg, myL, 
-                            g_, g_c, g >>
+                            badCallback, mon, monOk, isopen, startOK, 
+                            pendingSend, cg, myL, g_, g_c, g >>
 
 s3(self) == /\ pc[self] = "s3"
             /\ stopReq[gen] = 0
@@ -455,8 +464,8 @@ s3(self) == /\ pc[self] = "s3"
             /\ UNCHANGED << muW, muR, muWait, hasProc, listener, gen, stopAck, 
                             killReq, killAck, alive, spawned, pipe, emitted, 
                             nextL, stopped, calls, lastErr, cbActive, 
-                            badCallback, isopen, startOK, pendingSend, stack, 
-                            cg, lid, myL, g_, g_c, g >>
+                            badCallback, mon, monOk, isopen, startOK, 
+                            pendingSend, stack, cg, lid, myL, g_, g_c, g >>
 
 s4(self) == /\ pc[self] = "s4"
             /\ stopAck[gen] > 0
@@ -467,8 +476,9 @@ s4(self) == /\ pc[self] = "s4"
             /\ stack' = [stack EXCEPT ![self] = Tail(stack[self])]
             /\ UNCHANGED << muW, muR, muWait, hasProc, listener, gen, stopReq, 
                             killReq, killAck, alive, spawned, pipe, emitted, 
-                            nextL, calls, lastErr, cbActive, badCallback, 
-                            isopen, startOK, pendingSend, cg, myL, g_, g_c, g >>
+                            nextL, calls, lastErr, cbActive, badCallback, mon, 
+                            monOk, isopen, startOK, pendingSend, cg, myL, g_, 
+                            g_c, g >>
 
 StopP(self) == s1(self) \/ s2(self) \/ s3(self) \/ s4(self)
 
@@ -484,8 +494,8 @@ loop == /\ pc[1] = "loop"
         /\ UNCHANGED << muW, muR, muWait, hasProc, listener, gen, stopReq, 
                         stopAck, killReq, killAck, alive, spawned, pipe, 
                         emitted, nextL, stopped, lastErr, cbActive, 
-                        badCallback, isopen, startOK, pendingSend, stack, cg, 
-                        lid, myL, g_, g_c, g >>
+                        badCallback, mon, monOk, isopen, startOK, pendingSend, 
+                        stack, cg, lid, myL, g_, g_c, g >>
 
 op1 == /\ pc[1] = "op1"
        /\ stack' = [stack EXCEPT ![1] = << [ procedure |->  "IsOpenP",
@@ -495,8 +505,8 @@ op1 == /\ pc[1] = "op1"
        /\ UNCHANGED << muW, muR, muWait, hasProc, listener, gen, stopReq, 
                        stopAck, killReq, killAck, alive, spawned, pipe, 
                        emitted, nextL, stopped, calls, lastErr, cbActive, 
-                       badCallback, isopen, startOK, pendingSend, cg, lid, myL, 
-                       g_, g_c, g >>
+                       badCallback, mon, monOk, isopen, startOK, pendingSend, 
+                       cg, lid, myL, g_, g_c, g >>
 
 op2 == /\ pc[1] = "op2"
        /\ IF ~isopen /\ gen < 2
@@ -509,8 +519,8 @@ op2 == /\ pc[1] = "op2"
        /\ UNCHANGED << muW, muR, muWait, hasProc, listener, gen, stopReq, 
                        stopAck, killReq, killAck, alive, spawned, pipe, 
                        emitted, nextL, stopped, calls, lastErr, cbActive, 
-                       badCallback, isopen, startOK, pendingSend, cg, lid, myL, 
-                       g_, g_c, g >>
+                       badCallback, mon, monOk, isopen, startOK, pendingSend, 
+                       cg, lid, myL, g_, g_c, g >>
 
 op3 == /\ pc[1] = "op3"
        /\ IF lastErr
@@ -525,8 +535,8 @@ op3 == /\ pc[1] = "op3"
        /\ UNCHANGED << muW, muR, muWait, hasProc, listener, gen, stopReq, 
                        stopAck, killReq, killAck, alive, spawned, pipe, 
                        emitted, nextL, stopped, calls, lastErr, cbActive, 
-                       badCallback, isopen, startOK, pendingSend, lid, myL, g_, 
-                       g_c, g >>
+                       badCallback, mon, monOk, isopen, startOK, pendingSend, 
+                       lid, myL, g_, g_c, g >>
 
 li1 == /\ pc[1] = "li1"
        /\ stack' = [stack EXCEPT ![1] = << [ procedure |->  "IsOpenP",
@@ -536,8 +546,8 @@ li1 == /\ pc[1] = "li1"
        /\ UNCHANGED << muW, muR, muWait, hasProc, listener, gen, stopReq, 
                        stopAck, killReq, killAck, alive, spawned, pipe, 
                        emitted, nextL, stopped, calls, lastErr, cbActive, 
-                       badCallback, isopen, startOK, pendingSend, cg, lid, myL, 
-                       g_, g_c, g >>
+                       badCallback, mon, monOk, isopen, startOK, pendingSend, 
+                       cg, lid, myL, g_, g_c, g >>
 
 li2 == /\ pc[1] = "li2"
        /\ IF isopen
@@ -546,8 +556,8 @@ li2 == /\ pc[1] = "li2"
        /\ UNCHANGED << muW, muR, muWait, hasProc, listener, gen, stopReq, 
                        stopAck, killReq, killAck, alive, spawned, pipe, 
                        emitted, nextL, stopped, calls, lastErr, cbActive, 
-                       badCallback, isopen, startOK, pendingSend, stack, cg, 
-                       lid, myL, g_, g_c, g >>
+                       badCallback, mon, monOk, isopen, startOK, pendingSend, 
+                       stack, cg, lid, myL, g_, g_c, g >>
 
 li3 == /\ pc[1] = "li3"
        /\ muW = 0 /\ muWait = 0
@@ -557,16 +567,17 @@ li3 == /\ pc[1] = "li3"
        /\ UNCHANGED << muW, muR, muWait, hasProc, listener, gen, stopReq, 
                        stopAck, killReq, killAck, alive, spawned, pipe, 
                        emitted, nextL, stopped, calls, lastErr, cbActive, 
-                       badCallback, isopen, startOK, pendingSend, stack, cg, 
-                       lid, myL, g_, g_c, g >>
+                       badCallback, mon, monOk, isopen, startOK, pendingSend, 
+                       stack, cg, lid, myL, g_, g_c, g >>
 
 li4 == /\ pc[1] = "li4"
        /\ muWait' = muWait + 1
        /\ pc' = [pc EXCEPT ![1] = "li5"]
        /\ UNCHANGED << muW, muR, hasProc, listener, gen, stopReq, stopAck, 
                        killReq, killAck, alive, spawned, pipe, emitted, nextL, 
-                       stopped, calls, lastErr, cbActive, badCallback, isopen, 
-                       startOK, pendingSend, stack, cg, lid, myL, g_, g_c, g >>
+                       stopped, calls, lastErr, cbActive, badCallback, mon, 
+                       monOk, isopen, startOK, pendingSend, stack, cg, lid, 
+                       myL, g_, g_c, g >>
 
 li5 == /\ pc[1] = "li5"
        /\ muW = 0 /\ muR = 0
@@ -575,13 +586,16 @@ li5 == /\ pc[1] = "li5"
        /\ pc' = [pc EXCEPT ![1] = "li6"]
        /\ UNCHANGED << muR, hasProc, listener, gen, stopReq, stopAck, killReq, 
                        killAck, alive, spawned, pipe, emitted, nextL, stopped, 
-                       calls, lastErr, cbActive, badCallback, isopen, startOK, 
-                       pendingSend, stack, cg, lid, myL, g_, g_c, g >>
+                       calls, lastErr, cbActive, badCallback, mon, monOk, 
+                       isopen, startOK, pendingSend, stack, cg, lid, myL, g_, 
+                       g_c, g >>
 
 li6 == /\ pc[1] = "li6"
        /\ listener' = nextL
        /\ myL' = nextL
        /\ nextL' = nextL + 1
+       /\ monOk' = (monOk /\ MEnabled(mon, "listener-set"))
+       /\ mon' = MStep(mon, "listener-set")
        /\ muW' = 0
        /\ pc' = [pc EXCEPT ![1] = "loop"]
        /\ UNCHANGED << muR, muWait, hasProc, gen, stopReq, stopAck, killReq, 
@@ -602,8 +616,8 @@ st1 == /\ pc[1] = "st1"
        /\ UNCHANGED << muW, muR, muWait, hasProc, listener, gen, stopReq, 
                        stopAck, killReq, killAck, alive, spawned, pipe, 
                        emitted, nextL, stopped, calls, lastErr, cbActive, 
-                       badCallback, isopen, startOK, pendingSend, cg, myL, g_, 
-                       g_c, g >>
+                       badCallback, mon, monOk, isopen, startOK, pendingSend, 
+                       cg, myL, g_, g_c, g >>
 
 st2 == /\ pc[1] = "st2"
        /\ myL' = 0
@@ -611,8 +625,8 @@ st2 == /\ pc[1] = "st2"
        /\ UNCHANGED << muW, muR, muWait, hasProc, listener, gen, stopReq, 
                        stopAck, killReq, killAck, alive, spawned, pipe, 
                        emitted, nextL, stopped, calls, lastErr, cbActive, 
-                       badCallback, isopen, startOK, pendingSend, stack, cg, 
-                       lid, g_, g_c, g >>
+                       badCallback, mon, monOk, isopen, startOK, pendingSend, 
+                       stack, cg, lid, g_, g_c, g >>
 
 cl1 == /\ pc[1] = "cl1"
        /\ stack' = [stack EXCEPT ![1] = << [ procedure |->  "CloseP",
@@ -624,8 +638,8 @@ cl1 == /\ pc[1] = "cl1"
        /\ UNCHANGED << muW, muR, muWait, hasProc, listener, gen, stopReq, 
                        stopAck, killReq, killAck, alive, spawned, pipe, 
                        emitted, nextL, stopped, calls, lastErr, cbActive, 
-                       badCallback, isopen, startOK, pendingSend, lid, myL, g_, 
-                       g_c, g >>
+                       badCallback, mon, monOk, isopen, startOK, pendingSend, 
+                       lid, myL, g_, g_c, g >>
 
 client == loop \/ op1 \/ op2 \/ op3 \/ li1 \/ li2 \/ li3 \/ li4 \/ li5
              \/ li6 \/ st1 \/ st2 \/ cl1
@@ -638,8 +652,8 @@ as(self) == /\ pc[self] = "as"
             /\ UNCHANGED << muW, muR, muWait, hasProc, listener, gen, stopAck, 
                             killReq, killAck, alive, spawned, pipe, emitted, 
                             nextL, stopped, calls, lastErr, cbActive, 
-                            badCallback, isopen, startOK, stack, cg, lid, myL, 
-                            g_, g_c, g >>
+                            badCallback, mon, monOk, isopen, startOK, stack, 
+                            cg, lid, myL, g_, g_c, g >>
 
 asyncsend(self) == as(self)
 
@@ -649,8 +663,8 @@ r0(self) == /\ pc[self] = "r0"
             /\ UNCHANGED << muW, muR, muWait, hasProc, listener, gen, stopReq, 
                             stopAck, killReq, killAck, alive, spawned, pipe, 
                             emitted, nextL, stopped, calls, lastErr, cbActive, 
-                            badCallback, isopen, startOK, pendingSend, stack, 
-                            cg, lid, myL, g_, g_c, g >>
+                            badCallback, mon, monOk, isopen, startOK, 
+                            pendingSend, stack, cg, lid, myL, g_, g_c, g >>
 
 r1(self) == /\ pc[self] = "r1"
             /\ \/ /\ pipe[g_[self]] > 0
@@ -662,8 +676,8 @@ r1(self) == /\ pc[self] = "r1"
             /\ UNCHANGED << muW, muR, muWait, hasProc, listener, gen, stopReq, 
                             stopAck, killReq, killAck, alive, spawned, emitted, 
                             nextL, stopped, calls, lastErr, cbActive, 
-                            badCallback, isopen, startOK, pendingSend, stack, 
-                            cg, lid, myL, g_, g_c, g >>
+                            badCallback, mon, monOk, isopen, startOK, 
+                            pendingSend, stack, cg, lid, myL, g_, g_c, g >>
 
 r2(self) == /\ pc[self] = "r2"
             /\ muW = 0 /\ muWait = 0
@@ -672,8 +686,8 @@ r2(self) == /\ pc[self] = "r2"
             /\ UNCHANGED << muW, muWait, hasProc, listener, gen, stopReq, 
                             stopAck, killReq, killAck, alive, spawned, pipe, 
                             emitted, nextL, stopped, calls, lastErr, cbActive, 
-                            badCallback, isopen, startOK, pendingSend, stack, 
-                            cg, lid, myL, g_, g_c, g >>
+                            badCallback, mon, monOk, isopen, startOK, 
+                            pendingSend, stack, cg, lid, myL, g_, g_c, g >>
 
 r3(self) == /\ pc[self] = "r3"
             /\ IF ~hasProc
@@ -684,8 +698,8 @@ r3(self) == /\ pc[self] = "r3"
             /\ UNCHANGED << muW, muWait, hasProc, listener, gen, stopReq, 
                             stopAck, killReq, killAck, alive, spawned, pipe, 
                             emitted, nextL, stopped, calls, lastErr, cbActive, 
-                            badCallback, isopen, startOK, pendingSend, stack, 
-                            cg, lid, myL, g_, g_c, g >>
+                            badCallback, mon, monOk, isopen, startOK, 
+                            pendingSend, stack, cg, lid, myL, g_, g_c, g >>
 
 r4(self) == /\ pc[self] = "r4"
             /\ IF listener # 0
@@ -695,7 +709,10 @@ r4(self) == /\ pc[self] = "r4"
                              ELSE /\ TRUE
                                   /\ UNCHANGED badCallback
                        /\ pc' = [pc EXCEPT ![self] = "r5"]
-                  ELSE /\ pc' = [pc EXCEPT ![self] = "r6"]
+                       /\ UNCHANGED << mon, monOk >>
+                  ELSE /\ monOk' = (monOk /\ MEnabled(mon, "line-dropped"))
+                       /\ mon' = MStep(mon, "line-dropped")
+                       /\ pc' = [pc EXCEPT ![self] = "r6"]
                        /\ UNCHANGED << cbActive, badCallback >>
             /\ UNCHANGED << muW, muR, muWait, hasProc, listener, gen, stopReq, 
                             stopAck, killReq, killAck, alive, spawned, pipe, 
@@ -705,6 +722,8 @@ r4(self) == /\ pc[self] = "r4"
 
 r5(self) == /\ pc[self] = "r5"
             /\ cbActive' = 0
+            /\ monOk' = (monOk /\ MEnabled(mon, "line-delivered"))
+            /\ mon' = MStep(mon, "line-delivered")
             /\ pc' = [pc EXCEPT ![self] = "r6"]
             /\ UNCHANGED << muW, muR, muWait, hasProc, listener, gen, stopReq, 
                             stopAck, killReq, killAck, alive, spawned, pipe, 
@@ -718,8 +737,8 @@ r6(self) == /\ pc[self] = "r6"
             /\ UNCHANGED << muW, muWait, hasProc, listener, gen, stopReq, 
                             stopAck, killReq, killAck, alive, spawned, pipe, 
                             emitted, nextL, stopped, calls, lastErr, cbActive, 
-                            badCallback, isopen, startOK, pendingSend, stack, 
-                            cg, lid, myL, g_, g_c, g >>
+                            badCallback, mon, monOk, isopen, startOK, 
+                            pendingSend, stack, cg, lid, myL, g_, g_c, g >>
 
 rdone(self) == /\ pc[self] = "rdone"
                /\ TRUE
@@ -727,8 +746,9 @@ rdone(self) == /\ pc[self] = "rdone"
                /\ UNCHANGED << muW, muR, muWait, hasProc, listener, gen, 
                                stopReq, stopAck, killReq, killAck, alive, 
                                spawned, pipe, emitted, nextL, stopped, calls, 
-                               lastErr, cbActive, badCallback, isopen, startOK, 
-                               pendingSend, stack, cg, lid, myL, g_, g_c, g >>
+                               lastErr, cbActive, badCallback, mon, monOk, 
+                               isopen, startOK, pendingSend, stack, cg, lid, 
+                               myL, g_, g_c, g >>
 
 reader(self) == r0(self) \/ r1(self) \/ r2(self) \/ r3(self) \/ r4(self)
                    \/ r5(self) \/ r6(self) \/ rdone(self)
@@ -739,8 +759,8 @@ k0(self) == /\ pc[self] = "k0"
             /\ UNCHANGED << muW, muR, muWait, hasProc, listener, gen, stopReq, 
                             stopAck, killReq, killAck, alive, spawned, pipe, 
                             emitted, nextL, stopped, calls, lastErr, cbActive, 
-                            badCallback, isopen, startOK, pendingSend, stack, 
-                            cg, lid, myL, g_, g_c, g >>
+                            badCallback, mon, monOk, isopen, startOK, 
+                            pendingSend, stack, cg, lid, myL, g_, g_c, g >>
 
 k1(self) == /\ pc[self] = "k1"
             /\ \/ /\ killReq[g_c[self]] > 0
@@ -754,9 +774,9 @@ k1(self) == /\ pc[self] = "k1"
                   /\ UNCHANGED <<killReq, alive>>
             /\ UNCHANGED << muW, muR, muWait, hasProc, listener, gen, stopAck, 
                             killAck, spawned, pipe, emitted, nextL, stopped, 
-                            calls, lastErr, cbActive, badCallback, isopen, 
-                            startOK, pendingSend, stack, cg, lid, myL, g_, g_c, 
-                            g >>
+                            calls, lastErr, cbActive, badCallback, mon, monOk, 
+                            isopen, startOK, pendingSend, stack, cg, lid, myL, 
+                            g_, g_c, g >>
 
 k2(self) == /\ pc[self] = "k2"
             /\ muWait' = muWait + 1
@@ -764,8 +784,8 @@ k2(self) == /\ pc[self] = "k2"
             /\ UNCHANGED << muW, muR, hasProc, listener, gen, stopReq, stopAck, 
                             killReq, killAck, alive, spawned, pipe, emitted, 
                             nextL, stopped, calls, lastErr, cbActive, 
-                            badCallback, isopen, startOK, pendingSend, stack, 
-                            cg, lid, myL, g_, g_c, g >>
+                            badCallback, mon, monOk, isopen, startOK, 
+                            pendingSend, stack, cg, lid, myL, g_, g_c, g >>
 
 k3(self) == /\ pc[self] = "k3"
             /\ muW = 0 /\ muR = 0
@@ -775,11 +795,13 @@ k3(self) == /\ pc[self] = "k3"
             /\ UNCHANGED << muR, hasProc, listener, gen, stopReq, stopAck, 
                             killReq, killAck, alive, spawned, pipe, emitted, 
                             nextL, stopped, calls, lastErr, cbActive, 
-                            badCallback, isopen, startOK, pendingSend, stack, 
-                            cg, lid, myL, g_, g_c, g >>
+                            badCallback, mon, monOk, isopen, startOK, 
+                            pendingSend, stack, cg, lid, myL, g_, g_c, g >>
 
 k4(self) == /\ pc[self] = "k4"
             /\ hasProc' = FALSE
+            /\ monOk' = (monOk /\ MEnabled(mon, "killed"))
+            /\ mon' = MStep(mon, "killed")
             /\ muW' = 0
             /\ pc' = [pc EXCEPT ![self] = "k5"]
             /\ UNCHANGED << muR, muWait, listener, gen, stopReq, stopAck, 
@@ -795,8 +817,8 @@ k5(self) == /\ pc[self] = "k5"
             /\ UNCHANGED << muW, muR, muWait, hasProc, listener, gen, stopReq, 
                             stopAck, killReq, alive, spawned, pipe, emitted, 
                             nextL, stopped, calls, lastErr, cbActive, 
-                            badCallback, isopen, startOK, pendingSend, stack, 
-                            cg, lid, myL, g_, g_c, g >>
+                            badCallback, mon, monOk, isopen, startOK, 
+                            pendingSend, stack, cg, lid, myL, g_, g_c, g >>
 
 k6(self) == /\ pc[self] = "k6"
             /\ muWait' = muWait + 1
@@ -804,8 +826,8 @@ k6(self) == /\ pc[self] = "k6"
             /\ UNCHANGED << muW, muR, hasProc, listener, gen, stopReq, stopAck, 
                             killReq, killAck, alive, spawned, pipe, emitted, 
                             nextL, stopped, calls, lastErr, cbActive, 
-                            badCallback, isopen, startOK, pendingSend, stack, 
-                            cg, lid, myL, g_, g_c, g >>
+                            badCallback, mon, monOk, isopen, startOK, 
+                            pendingSend, stack, cg, lid, myL, g_, g_c, g >>
 
 k7(self) == /\ pc[self] = "k7"
             /\ muW = 0 /\ muR = 0
@@ -815,11 +837,13 @@ k7(self) == /\ pc[self] = "k7"
             /\ UNCHANGED << muR, hasProc, listener, gen, stopReq, stopAck, 
                             killReq, killAck, alive, spawned, pipe, emitted, 
                             nextL, stopped, calls, lastErr, cbActive, 
-                            badCallback, isopen, startOK, pendingSend, stack, 
-                            cg, lid, myL, g_, g_c, g >>
+                            badCallback, mon, monOk, isopen, startOK, 
+                            pendingSend, stack, cg, lid, myL, g_, g_c, g >>
 
 k8(self) == /\ pc[self] = "k8"
             /\ listener' = 0
+            /\ monOk' = (monOk /\ MEnabled(mon, "listener-cleared"))
+            /\ mon' = MStep(mon, "listener-cleared")
             /\ muW' = 0
             /\ pc' = [pc EXCEPT ![self] = "k9"]
             /\ UNCHANGED << muR, muWait, hasProc, gen, stopReq, stopAck, 
@@ -835,8 +859,8 @@ k9(self) == /\ pc[self] = "k9"
             /\ UNCHANGED << muW, muR, muWait, hasProc, listener, gen, stopReq, 
                             killReq, killAck, alive, spawned, pipe, emitted, 
                             nextL, stopped, calls, lastErr, cbActive, 
-                            badCallback, isopen, startOK, pendingSend, stack, 
-                            cg, lid, myL, g_, g_c, g >>
+                            badCallback, mon, monOk, isopen, startOK, 
+                            pendingSend, stack, cg, lid, myL, g_, g_c, g >>
 
 kdone(self) == /\ pc[self] = "kdone"
                /\ TRUE
@@ -844,8 +868,9 @@ kdone(self) == /\ pc[self] = "kdone"
                /\ UNCHANGED << muW, muR, muWait, hasProc, listener, gen, 
                                stopReq, stopAck, killReq, killAck, alive, 
                                spawned, pipe, emitted, nextL, stopped, calls, 
-                               lastErr, cbActive, badCallback, isopen, startOK, 
-                               pendingSend, stack, cg, lid, myL, g_, g_c, g >>
+                               lastErr, cbActive, badCallback, mon, monOk, 
+                               isopen, startOK, pendingSend, stack, cg, lid, 
+                               myL, g_, g_c, g >>
 
 control(self) == k0(self) \/ k1(self) \/ k2(self) \/ k3(self) \/ k4(self)
                     \/ k5(self) \/ k6(self) \/ k7(self) \/ k8(self)
@@ -862,8 +887,8 @@ h1(self) == /\ pc[self] = "h1"
             /\ UNCHANGED << muW, muR, muWait, hasProc, listener, gen, stopReq, 
                             stopAck, killReq, killAck, alive, spawned, nextL, 
                             stopped, calls, lastErr, cbActive, badCallback, 
-                            isopen, startOK, pendingSend, stack, cg, lid, myL, 
-                            g_, g_c, g >>
+                            mon, monOk, isopen, startOK, pendingSend, stack, 
+                            cg, lid, myL, g_, g_c, g >>
 
 helper(self) == h1(self)
 
@@ -886,5 +911,8 @@ NoCallbackAfterStop == ~badCallback
 NoCallbackRunningAfterStop == cbActive # 0 => cbActive \notin stopped
 \* the only states without a successor are those where the client has finished its calls
 ClientDone == pc[1] = "Done"
+\* the model's lock-protected steps, in lock order, are a behaviour of the abstract hook-event monitor McatEvents --
+\* the same monitor against which the hook events recorded from the REAL driver are validated (Trace_McatEvents)
+RefinesMonitor == monOk
 NoDeadlockWhileCalling == (~ENABLED Next) => ClientDone
 =============================================================================
